@@ -113,15 +113,18 @@ func lockEvents(evs []ringsim.Event) (map[uint64][]lockEvent, int, []string) {
 	return out, refusals, badRefusals
 }
 
-// refusalOK: a refusal must be retryable. Documented exceptions that are not
-// refusals of a busy node: duplicate joiner id, and a request that reached a
-// node which is no longer part of the ring (DESIGN observation O2).
+// refusalOK: a refusal must be retryable. The only exception that is not the
+// refusal of a busy node is a duplicate joiner id. (Until the repair ca818e2 a
+// request that reached a leaving or departed node was answered "node is not
+// part of the ring", non-retryably, and this oracle tolerated it as DESIGN
+// observation O2; since then the join path answers such requests retryably
+// and the tolerance would only hide regressions.)
 func refusalOK(msg string) bool {
 	err := chord.ErrorMapper(twirp.NewError(twirp.Internal, msg))
 	if chord.ErrorIsRetryable(err) {
 		return true
 	}
-	return err == chord.ErrDuplicateJoinerID || err == chord.ErrNodeGone || err == chord.ErrNodeNotStarted
+	return err == chord.ErrDuplicateJoinerID
 }
 
 func genC06Plan() *rapid.Generator[churnPlan] {
@@ -188,6 +191,19 @@ func TestC06(t *testing.T) {
 		rec.Case(true, "scenario:refused-join-without-predecessor", func() any {
 			return map[string]any{"scenario": "join refused by a node that has just lost its predecessor", "refusals": n}
 		}, "scenario:refused-join-without-predecessor")
+	}
+	// scenario tier: a join request that reaches a node in the middle of its own leave
+	if p := joinWhileContactedNodeIsLeaving(); p != "" {
+		if len(p) > 13 && p[:13] == "precondition:" {
+			rec.Inconclusive("scenario-precondition")
+			t.Logf("contacted-node-leaving scenario: %s", p)
+		} else {
+			rec.Fail(t, "membership-request-refused-non-retryably", map[string]any{"schedule": "ring {1<<44, 2<<44, 3<<44}; 2<<44 holds keys and leaves gracefully, its Import to 3<<44 is held on the wire (state Leaving); 3<<43 asks 2<<44 to join; the hand-over is released", "problem": p}, "%s", p)
+		}
+	} else {
+		rec.Case(true, "scenario:join-while-contacted-node-is-leaving", func() any {
+			return map[string]any{"scenario": "join request to a node that is in the middle of its own graceful leave (one membership change holds it)"}
+		}, "scenario:join-while-contacted-node-is-leaving")
 	}
 	// schedule-stress tier: simultaneous membership requests at ONE real node, scripted neighbours
 	{
